@@ -8,7 +8,7 @@ CHECKS = {
         'really published source message), a stage Acks a copy only after the next topic accepted every output and after Publish returned, every fault ends in a Nack and the publication '
         'stays pending, never-lost invariant, and - for scripts with finitely many faults per stage - every run is finite under every scheduler (Acc, lexicographic measure faults x remaining '
         'handler invocations), stops only when nothing is pending, and then every descendant of every source message has arrived; duplicates at the final topic are counted exactly '
-        '(= what publish-side faults let through). The product of k such GoChannel topics with one Router step per delivered copy is proved to simulate the abstract pipeline (forward simulation), so nothing-invented, ack-only-after-accept and never-lost hold of the composition; liveness transfers as far as "finitely many Router steps" (partial). The topic interface (no loss before the Ack, redelivery after a Nack, one in flight) is also proved of the real composed GoChannel model Compose.v for a live subscription, whatever other subscriptions do. Tied to the code on every run: real Routers (one with k handlers / k routers) over real GoChannels (plain/persistent, buffer 0/n, '
+        '(= what publish-side faults let through). The product of k such GoChannel topics with one Router step per delivered copy is proved to simulate the abstract pipeline (forward simulation), so nothing-invented, ack-only-after-accept and never-lost hold of the composition; liveness transfers as far as "finitely many Router steps" (partial). The topic interface (no loss before the Ack, redelivery after a Nack, one in flight) is also proved of the real composed GoChannel model Compose.v for a live subscription, whatever other subscriptions do. Bystander handlers (the empty name included) with error-swallowing / instant-ack middlewares share the Routers of the pipeline and every stage call must have entered only router-level and its own middlewares (the ownership statement of C09 as a monitor). Tied to the code on every run: real Routers (one with k handlers / k routers) over real GoChannels (plain/persistent, buffer 0/n, '
         'blocking publish on/off) with fault-injecting handler and publisher wrappers driven by the same script; every delivery attempt (call number, message as seen, Router events, '
         'accepted outputs, settlement) and the sink multiset are compared with the model replayed on the observed schedule, and the proved monitors judge the implementation.'),
   note=('Trusted: Coq kernel + vm_compute; composition through component specifications (C02 model for the Router, Sub.v for the send loop - each tied to the code by its own check); '
